@@ -102,3 +102,33 @@ pub fn sequences(k: usize, len: usize, mut f: impl FnMut(&[usize])) {
         }
     }
 }
+
+/// Like `drive`, but every output element comes with the number of source elements consumed when
+/// it was produced (`counter` is the one given to `ScriptSource::counted`).
+pub fn drive_aligned<Op: Operator>(
+    mut chain: Op,
+    counter: &std::sync::atomic::AtomicUsize,
+) -> Vec<(usize, El<Op::Out>)> {
+    testkit::with_metadata(0, 0, 1, BatchMode::fixed(1024), |m| chain.setup(m));
+    let mut out = vec![];
+    for _ in 0..100_000 {
+        let e = chain.next();
+        let t = matches!(e, StreamElement::Terminate);
+        out.push((counter.load(std::sync::atomic::Ordering::SeqCst), e));
+        if t {
+            return out;
+        }
+    }
+    panic!("operator chain did not terminate within 100000 elements");
+}
+
+pub fn counted_stream<T: Clone + Send + Sync + 'static>(
+    script: Vec<El<T>>,
+) -> (Stream<ScriptSource<T>>, Arc<std::sync::atomic::AtomicUsize>) {
+    let c = Arc::new(std::sync::atomic::AtomicUsize::new(0));
+    let env = StreamContext::new(RuntimeConfig::local(1).unwrap());
+    (
+        env.stream(ScriptSource::new(vec![script], Replication::One).counted(c.clone())),
+        c,
+    )
+}
